@@ -379,10 +379,29 @@ theorem lexTL2_spec (tx : Bytes) : ∃ lx, lexTL2 tx = .ok lx ∧ recombine lx.a
 
 def notDot (c : UInt8) : Bool := c.toNat != 46
 
-/-- what the parser relies on about token texts: non-`eof` tokens are non-empty, namespaced identifiers contain a dot. -/
+def letterTys : List Int := [T.tl2typeSign, T.lcIdentNS, T.ucIdentNS, T.lcIdent, T.ucIdent]
+def StepLetter : LexStep → Prop
+  | .tok ty _ _ => ty ∈ letterTys
+  | _ => True
+
+theorem lexLetter_tys (c : UInt8) (s : Bytes) : StepLetter (lexLetter c s) := by
+  simp only [lexLetter]
+  repeat' split
+  all_goals first
+    | trivial
+    | (simp only [StepLetter, letterTys]; decide)
+
+theorem nextStep_T (c : UInt8) (t : Bytes) (h : c.toNat = 84) : nextStep c t = lexLetter c (c :: t) := by
+  have : c = 84 := UInt8.toNat_inj.mp (by rw [h]; rfl)
+  subst this
+  rfl
+
+/-- what the parser relies on about token texts: non-`eof` tokens are non-empty, namespaced identifiers contain a dot,
+a token starting with `T` (such as `Type`) is an identifier-like token. -/
 def TokWF (t : Token) : Prop :=
   (t.ty ≠ T.eof → 1 ≤ t.val.length) ∧
-  ((t.ty = T.lcIdentNS ∨ t.ty = T.ucIdentNS) → spanLen notDot t.val < t.val.length)
+  ((t.ty = T.lcIdentNS ∨ t.ty = T.ucIdentNS) → spanLen notDot t.val < t.val.length) ∧
+  (∀ c r, t.val = c :: r → c.toNat = 84 → t.ty ∈ letterTys)
 
 theorem spanLen_append_le (p : UInt8 → Bool) (a : Bytes) (d : UInt8) (b : Bytes) (hd : p d = false) :
     spanLen p (a ++ d :: b) ≤ a.length := by
@@ -478,7 +497,7 @@ theorem lexLoop_wf (f : Nat) : ∀ (s : Bytes) (pos : Pos) (o : LexOut), lexLoop
       intro t ht
       simp only [List.mem_singleton] at ht
       subst ht
-      refine ⟨fun h => absurd rfl h, fun h => ?_⟩
+      refine ⟨fun h => absurd rfl h, fun h => ?_, fun c r h => by cases h⟩
       have : (T.eof = T.lcIdentNS ∨ T.eof = T.ucIdentNS) → False := by decide
       exact absurd h this
     | cons c t =>
@@ -502,11 +521,17 @@ theorem lexLoop_wf (f : Nat) : ∀ (s : Bytes) (pos : Pos) (o : LexOut), lexLoop
           simp only [List.mem_cons] at htk
           rcases htk with htk | htk
           · subst htk
-            refine ⟨fun _ => ?_, fun h => ?_⟩
+            refine ⟨fun _ => ?_, fun h => ?_, fun c' r' hv hc' => ?_⟩
             · simp only [List.length_take, List.length_cons]; omega
             · have := hwf h
               simp only [List.length_take, List.length_cons]
               omega
+            · simp only [List.take_succ_cons, List.cons.injEq] at hv
+              have hcc : c.toNat = 84 := by rw [hv.1]; exact hc'
+              have h1 := nextStep_T c t hcc
+              have h2 := lexLetter_tys c (c :: t)
+              rw [← h1, hstep] at h2
+              exact h2
           · exact ih _ _ o' hrec herr tk htk
         | panic => rw [hrec] at h; cases h
         | nofuel => rw [hrec] at h; cases h
